@@ -1,6 +1,8 @@
 //@props C19 C20
 //@rewrite `.peekable()` => `.shim_peekable()` :: Iterator::peekable is a provided trait method (no specification possible); stand-in whose body is the real call, contract: yields what the underlying iterator yields (spec/lib/model_canon.rs)
 //@rewrite `.to_string()` => `.shim_to_string()` :: ToString::to_string comes from the blanket impl over Display; stand-in: an uninterpreted function of the token tree (spec/lib/model_canon.rs)
+//@rewrite `.starts_with(` => `.shim_starts_with(` :: str::starts_with is generic over the unstable Pattern trait; stand-in with an uninterpreted meaning (spec/lib/model_canon.rs)
+//@rewrite `.ends_with(` => `.shim_ends_with(` :: as starts_with
 // Unit canon: lib::token_text - the canonical token text that lib::is_same_program compares - verified against its definition
 // (model_canon::canon_tree: tokens separated by spaces, groups inside their delimiters, a comma that ends a stream or group dropped
 // and NOTHING else), with termination by the nesting of token groups.  Before this unit the function was a TRUSTED stub.
